@@ -26,13 +26,14 @@ inline T log2(T const x)
 {
   static_assert(std::is_unsigned_v<T>, "log2 can only be used on unsigned types");
 
-  T r(1);
+  T r(0);
 
-  while ((x >> r) != 0)
+  // Shift a copy by one per step: shifting x by its full bit width is undefined.
+  for (T rest(static_cast<T>(x >> 1U)); rest != 0; rest = static_cast<T>(rest >> 1U))
   {
     ++r;
   }
-  return --r;
+  return r;
 }
 
 }
